@@ -488,6 +488,28 @@ def same_handler_isolation(faulty: int, on_region: bool, wildcard: bool, observe
     return len([s for (s, _) in f.rec.sent if s.obj is msg]) == 1 and len(f.log.logged) == 1 and f.log.logged[0] is msg
 
 
+
+# ---------------------------------------------------------------------------------------------------------------------
+# the dispatch point itself: hippolyzer.lib.base.events.Event.notify under MessageHandler
+from harness import eventfix as _ef  # noqa: E402
+
+
+@harness(pre=["0 <= b0 < 9", "0 <= b1 < 9", "0 <= b2 < 9", "1 <= n <= 3"], post="_", timeout=300,
+         note="Event.notify (fault isolation / at-most-once at the dispatch point shared by addon, session and region subscriptions): 1..3 subscribers, each with a symbolically chosen behaviour out of "
+              "{normal, returns True (asks to be unsubscribed), one-shot, raises, predicate false, predicate raises, unsubscribes "
+              "itself inside the handler and returns True, unsubscribes itself and returns None, returns a value whose truth test "
+              "raises}, followed by an observer subscribed last; two notifications: every subscriber registered when a notification "
+              "starts whose predicate passes is called exactly once, in subscription order, whatever the others do; notify() "
+              "never raises; exactly the subscribers that neither left nor were one-shot remain for the second notification",
+         covers=("hippolyzer.lib.base.events:Event.notify", "hippolyzer.lib.base.events:Event.unsubscribe",
+                 "hippolyzer.lib.base.events:Event.subscribe"))
+def event_notify_matrix(b0: int, b1: int, b2: int, n: int) -> bool:
+    return _ef.notify_matrix(b0, b1, b2, n)
+
+
+shard(event_notify_matrix, "b0", range(9), _ef.LABELS, globals())
+
+
 EVIDENCE = {
     "bounds": "2 addons (quick) / 3 addons (thorough) x 13 behaviours per hook (incl. raising asyncio.CancelledError and "
               "SystemExit), 4 subscriber variants, direction and reliable bit symbolic; handler isolation: 8 session-level "
